@@ -129,13 +129,14 @@ def json_plain():
 def gen_cases(draw):
     ind = draw(st.sampled_from(INDENTS))
     asc = draw(st.booleans())
+    pre = draw(st.sampled_from([None, None, None, 'same_function', 'other_function']))
     if draw(st.integers(0, 2)) == 0:
-        return {'plain': draw(json_plain()), 'indent': ind, 'ascii': asc}
+        return {'plain': draw(json_plain()), 'indent': ind, 'ascii': asc, 'prelude': pre}
     spec = draw(gen.models(FEATS))
     v = draw(gen.vspec_for(spec, spec['doc_type'], hard=True, finite=True))
     if v is None:
         return {'plain': draw(json_plain()), 'indent': ind, 'ascii': asc}
-    return {'model': spec, 'value': v, 'indent': ind, 'ascii': asc}
+    return {'model': spec, 'value': v, 'indent': ind, 'ascii': asc, 'prelude': pre}
 
 
 def to_cmp(p):
@@ -249,6 +250,20 @@ def check(case, ctx):
     if not asc:
         kw['ensure_ascii'] = False
     m.reset()
+    pre = case.get('prelude')
+    if pre:
+        # a dump that fails half-way (JSON cannot express a shared container)
+        # must not influence later dumps of tree-shaped values
+        shared = [1, 'x']
+        bad = {'k': [shared, {'again': shared}]}
+        fn = dumps if pre == 'same_function' else yatiml.dumps_json_function()
+        try:
+            fn(bad, **kw)
+            ctx.count('prelude_did_not_fail')
+        except RuntimeError:
+            ctx.count('prelude_' + pre)
+        except Exception as e:
+            ctx.count('prelude_other_' + type(e).__name__)
     try:
         text = dumps(value, **kw)
     except Exception as e:
